@@ -21,6 +21,7 @@ package main
 import (
 	"fmt"
 	"go/ast"
+	"go/build"
 	"go/parser"
 	"go/token"
 	"math"
@@ -53,9 +54,22 @@ type pkgInfo struct {
 	strConsts map[string]string
 	maps      map[string]*mapInfo
 	funcs     map[string]*ast.FuncDecl
+	tainted   string // non-empty: some function of the package writes a map that may be a table
 }
 
 type notUnderstood struct{ msg string }
+
+// buildOK: the file is part of the package as the compiler sees it here (no test file; its build constraints — //go:build lines and
+// _GOOS / _GOARCH suffixes — are satisfied without extra tags, so verif_hooks.go is left out)
+func buildOK(dir string) func(os.FileInfo) bool {
+	return func(fi os.FileInfo) bool {
+		if strings.HasSuffix(fi.Name(), "_test.go") {
+			return false
+		}
+		ok, err := build.Default.MatchFile(dir, fi.Name())
+		return err == nil && ok
+	}
+}
 
 func fail(f string, a ...interface{}) { panic(notUnderstood{fmt.Sprintf(f, a...)}) }
 
@@ -82,9 +96,7 @@ func bytesLit(s string) string {
 
 func load(dir string, ver int) *pkgInfo {
 	fset := token.NewFileSet()
-	pkgs, err := parser.ParseDir(fset, dir, func(fi os.FileInfo) bool {
-		return !strings.HasSuffix(fi.Name(), "_test.go") && fi.Name() != "verif_hooks.go"
-	}, 0)
+	pkgs, err := parser.ParseDir(fset, dir, buildOK(dir), 0)
 	if err != nil {
 		fmt.Fprintln(os.Stderr, "tables:", err)
 		os.Exit(1)
@@ -248,6 +260,42 @@ func load(dir string, ver int) *pkgInfo {
 			}
 		}
 	}
+	// a table is only its literal if nothing in the package writes it: an `x[k] = v`, `x[k] op= v`, `delete(x, k)` with x an identifier
+	// (a package-level table, or a local that may alias one — the `names` maps of the object types are reached through a selector and
+	// are not concerned), or an assignment to a package-level table, anywhere in any function (init included), makes every table of
+	// the package untrustworthy: nothing that reads a table is translated then
+	for _, f := range files {
+		ast.Inspect(f, func(n ast.Node) bool {
+			switch x := n.(type) {
+			case *ast.AssignStmt:
+				for _, l := range x.Lhs {
+					if ix, ok := l.(*ast.IndexExpr); ok {
+						if id, ok := ix.X.(*ast.Ident); ok {
+							p.tainted = "the package writes a map through the identifier " + id.Name
+						}
+					}
+					if id, ok := l.(*ast.Ident); ok && x.Tok != token.DEFINE {
+						if _, isTable := p.maps[id.Name]; isTable {
+							p.tainted = "the package assigns to the table " + id.Name
+						}
+					}
+				}
+			case *ast.IncDecStmt:
+				if ix, ok := x.X.(*ast.IndexExpr); ok {
+					if id, ok := ix.X.(*ast.Ident); ok {
+						p.tainted = "the package writes a map through the identifier " + id.Name
+					}
+				}
+			case *ast.CallExpr:
+				if id, ok := x.Fun.(*ast.Ident); ok && (id.Name == "delete" || id.Name == "clear") && len(x.Args) >= 1 {
+					if a, ok := x.Args[0].(*ast.Ident); ok {
+						p.tainted = "the package calls " + id.Name + " on the identifier " + a.Name
+					}
+				}
+			}
+			return true
+		})
+	}
 	return p
 }
 
@@ -395,6 +443,9 @@ func (t *tr) expr(x ast.Expr, e *env) val {
 			return val{txt: bytesLit(s), typ: "string"}
 		}
 		if mi, ok := t.p.maps[v.Name]; ok {
+			if t.p.tainted != "" {
+				fail("reads the table %s, but %s", v.Name, t.p.tainted)
+			}
 			return val{txt: "tbl_" + mi.name, typ: "map:" + mi.valT}
 		}
 		fail("identifier %s", v.Name)
